@@ -124,9 +124,15 @@ Expected(t) ==
                 deps |-> [j \in 1..Len(es[k].deps) |-> Join(es[k].deps[j].name)],
                 calls |-> [j \in 1..Len(es[k].calls) |-> Join(es[k].calls[j].name)]]]]
 
-Init == /\ \E r \in Within(RootIncs), a \in Within(AIncs), b \in Within(BIncs), c \in CIncs, k \in BOOLEAN :
-             /\ CountSeq(r) + CountSeq(a) + CountSeq(b) + CountSeq(c) + (IF k THEN 1 ELSE 0) <= MaxOptions
-             /\ tree = [R |-> r, A |-> a, B |-> b, C |-> c, clash |-> k]
+\* besides the trees with at most MaxOptions options: every tree whose root has ONE include statement that carries
+\* TWO options (flatten + internal, aliases + excludes, ...), everything else default
+PairOnOne(r) == Len(r) = 1 /\ NonDefault(r[1]) = 2
+Init == /\ \/ \E r \in Within(RootIncs), a \in Within(AIncs), b \in Within(BIncs), c \in CIncs, k \in BOOLEAN :
+                /\ CountSeq(r) + CountSeq(a) + CountSeq(b) + CountSeq(c) + (IF k THEN 1 ELSE 0) <= MaxOptions
+                /\ tree = [R |-> r, A |-> a, B |-> b, C |-> c, clash |-> k]
+           \/ \E r \in {x \in RootIncs : PairOnOne(x)} :
+                /\ MaxOptions < 2
+                /\ tree = [R |-> r, A |-> <<>>, B |-> <<>>, C |-> <<>>, clash |-> FALSE]
         /\ exp = Expected(tree)
 Next == FALSE /\ UNCHANGED <<tree, exp>>
 Spec == Init /\ [][Next]_<<tree, exp>>
